@@ -69,16 +69,39 @@ def fault_cases(tier, seed):
             for k in range(1, 9 if tier == "quick" else 14):
                 for delay in ((0, 30) if tier != "quick" or k % 2 else (30,)):
                     yield {"label": "amo-checkpoint-failure", "prog": {"body": body}, "prog_seed": 1700 + i, "pattern": {"p": "plain"}, "max_inv": 14, "max_raises": 3,
-                           "faults": [{"match": {"op": "checkpoint", "n": k}, "err": err, "when": "before", "delay_ms": delay}],
+                           "faults": [{"match": {"op": "checkpoint", "n": k}, "err": err if i % 2 else dict(err, status=400, code="ValidationException"), "when": "before", "delay_ms": delay}],
                            "latency_ms": (1, 4) if delay else None, "opts": {"hang_s": 3.0, "idle_s": 0.5},
                            "holds": [{"match": {"kind": "gate", "name": "late"}, "until": {"event": {"kind": "api", "has": "fault", "this_inv": False}}, "delay_ms": 3}]}
                     i += 1
+
+
+def warm_and_skew_cases(tier, seed):
+    """(a) an attempt is interrupted WITHOUT the process dying (the call carrying its outcome fails, the invocation raises, Lambda
+    retries it in the same warm sandbox): nothing remembered in the process may make the retried invocation take the leftover START
+    for its own; (b) the service's clock runs ahead of / behind the function host's while invocations crash and are retried at once."""
+    err = {"kind": "client", "status": 400, "code": "ValidationException", "message": "bad request"}  # classified "raise": Lambda retries the invocation
+    i = 0
+    seq = [{"k": "step", "val": 1, "sem": "most"}, {"k": "step", "script": [{"do": "fail", "cls": "ValueError", "msg": "x"}, {"do": "ok", "val": 2}],
+                                                    "retry": {"decisions": [("retry", 1), ("stop",)]}, "sem": "most"}, {"k": "step", "val": 3, "sem": "most"}]
+    par = [{"k": "par", "branches": [{"body": [{"k": "step", "val": b, "sem": "most"}, {"k": "step", "val": b + 10, "sem": "most"}]} for b in range(2)], "cfg": {"preset": "all_completed"}}]
+    for body in (seq, par):
+        for k in range(1, 7 if tier == "quick" else 10):
+            for when in ("before", "after"):
+                yield {"label": "amo-outcome-lost-warm-sandbox", "prog": {"body": body}, "prog_seed": 1800 + i, "pattern": {"p": "plain"}, "max_inv": 14, "max_raises": 4,
+                       "faults": [{"match": {"op": "checkpoint", "n": k}, "err": err, "when": when}], "opts": {"warm": True, "hang_s": 3.0}}
+                i += 1
+    for skew in (3.0, 30.0, -3.0):
+        for body in (seq, par):
+            yield {"label": "amo-clock-skew", "prog": {"body": body}, "prog_seed": 1850 + i, "pattern": {"p": "crash_enum"}, "max_inv": 16,
+                   "world": {"complete": {}, "timers": "all", "clock_skew": skew}}
+            i += 1
 
 
 def explicit_all(tier, seed):
     yield from explicit(tier, seed)
     yield from lag_cases(tier, seed)
     yield from fault_cases(tier, seed)
+    yield from warm_and_skew_cases(tier, seed)
 
 
 SPEC = Spec(
@@ -91,7 +114,7 @@ SPEC = Spec(
     rule="at-most-once steps (strategies: SDK default / none / scripted k retries / packaged config) x failure scripts (succeed, "
     "fail-k-then-succeed, always fail), at top level and inside parallel branches x EVERY single crash point of the execution "
     "(before/after each API call, at every probe event incl. function entry/exit), plus random programs with random multi-crash and "
-    "asynchronous SIGKILL; plus retries driven by the in-process timer of a map/parallel whose sibling branch is still running while the service acts on the due timer 0.3-2.5 s late (the refreshed state still says PENDING); plus a failing checkpoint call at each of the first 8-13 call positions of map/parallel blocks of at-most-once steps, answered at once or kept in flight 30 ms while sibling STARTs queue up behind it. Oracle: step-function entries keyed by (position, backend Attempt counter at entry) occur at most once, "
+    "asynchronous SIGKILL; plus retries driven by the in-process timer of a map/parallel whose sibling branch is still running while the service acts on the due timer 0.3-2.5 s late (the refreshed state still says PENDING); plus a failing checkpoint call at each of the first 8-13 call positions of map/parallel blocks of at-most-once steps, answered at once or kept in flight 30 ms while sibling STARTs queue up behind it; the same failures (request or response lost) in a warm sandbox, where the retried invocation runs in the same process; every crash point with the service clock 3 s / 30 s ahead of or 3 s behind the host clock. Oracle: step-function entries keyed by (position, backend Attempt counter at entry) occur at most once, "
     "and at entry the backend holds the step STARTED. Non-trivial = an at-most-once step function was entered. "
     "A class = (program shape hash, interruption pattern, crash landing event kind).",
     deciding=lambda r: (r.get("stats") or {}).get("c04_entries", 0) > 0,
